@@ -86,6 +86,18 @@ def values_for(d, salt):
     (100: all zero, 101/105: first row / first entries zero, 102/107: alternating zeros) — sparse operands"""
     if d[0] == "num":
         return {(): float(d[1])}
+    if 110 <= salt % 1000 < 120:
+        # 110: negative zeros everywhere; 111: all entries equal; 112: 0.0 / -0.0 / duplicates mixed; 113: equal negatives
+        # (salt // 1000 shifts the cycle: the second operand of a pair)
+        cyc = {110: [-0.0], 111: [2.0], 112: [0.0, -0.0, 3.0, 3.0, -0.0], 113: [-1.5]}[salt % 1000]
+        if not d[1]:
+            return {(): cyc[(salt // 1000) % len(cyc)]}
+        out, c = {}, (salt // 1000)
+        for k in d[1]:
+            for l in (d[2] or [None]):
+                out[(kstr(k),) if l is None else (kstr(k), kstr(l))] = cyc[c % len(cyc)]
+                c += 1
+        return out
     if salt >= 100:
         mode = salt % 3 if salt % 100 < 5 else (salt + 1) % 3
         if not d[1]:
@@ -154,17 +166,30 @@ def apply_form(form, a, b):
     raise ValueError(form)
 
 
+SPREFIX = "lambda model, t : "          # Stock.build_function_string
+
+
 def fs_tokens(fs):
-    if not fs.startswith(PREFIX):
-        raise pyfrag.Unsupported("function string prefix: " + fs[:40])
-    return " ".join(pyfrag.lex(fs[len(PREFIX):]))
+    for pre in (PREFIX, SPREFIX):
+        if fs.startswith(pre):
+            return " ".join(pyfrag.lex(fs[len(pre):]))
+    raise pyfrag.Unsupported("function string prefix: " + fs[:40])
+
+
+def safe_eval(e, t=1.0):
+    """value of an element at time t; an evaluation error (ZeroDivisionError, numpy refusing a ragged list)
+    is reported as ('err', text) — it is not a refusal of the equation"""
+    try:
+        return e(t)
+    except Exception as ex:
+        return ("err", f"{type(ex).__name__}: {ex}")
 
 
 def observe(R):
     """canonical description of what the assignment produced: (wire line, {key path: value at t=1})"""
     vals = {}
     if not R.arrayed:
-        vals[()] = R(1.0)
+        vals[()] = safe_eval(R)
         return "scalar | " + fs_tokens(R._function_string), vals
     keys = list(R._elements.equations)
     first = R[keys[0]]
@@ -172,7 +197,7 @@ def observe(R):
         parts = []
         for k in keys:
             parts += [k, fs_tokens(R[k]._function_string)]
-            vals[(k,)] = R[k](1.0)
+            vals[(k,)] = safe_eval(R[k])
         return f"vector {1 if R.named_arrayed else 0} | " + " | ".join(parts), vals
     parts, n = [], None
     for k in keys:
@@ -180,16 +205,17 @@ def observe(R):
         n = len(inner) if n is None else n
         for l in inner:
             parts.append(fs_tokens(R[k][l]._function_string))
-            vals[(k, l)] = R[k][l](1.0)
+            vals[(k, l)] = safe_eval(R[k][l])
     return f"matrix {len(keys)} {n} | " + " | ".join(parts), vals
 
 
-def run_real(form, da, db, salt=0):
+def run_real(form, da, db, salt=0, kind=None):
     """returns (wire line | 'none', values | None, exception text | None, value tables of the operands)"""
-    va, vb = values_for(da, salt), values_for(db, salt + 5) if db is not None else None
+    va, vb = values_for(da, salt), values_for(db, (salt + 5) if salt < 110 else (salt + 2000)) if db is not None else None
     m = new_model()
     try:
-        kind = "constant" if salt >= 100 else "converter"      # sparse tables are held by constants (literal zeros)
+        if kind is None:
+            kind = "constant" if salt >= 100 else "converter"      # sparse tables are held by constants (literal zeros)
         a = build(m, "A", da, va, kind)
         b = build(m, "B", db, vb, kind) if db is not None else None
         R = m.converter("R")
@@ -202,16 +228,19 @@ def run_real(form, da, db, salt=0):
         return "none", None, f"{type(ex).__name__}: {ex}", va, vb
 
 
-def run_real_agg(agg, d, salt=0):
+def run_real_agg(agg, d, salt=0, kind="converter", dim=None):
     va = values_for(d, salt)
     m = new_model()
     try:
-        a = build(m, "A", d, va)
+        a = build(m, "A", d, va, kind)
         R = m.converter("R")
         k = agg.split(":")
         op = {"sum": a.arr_sum, "prod": a.arr_prod, "mean": a.arr_mean, "median": a.arr_median,
               "std": a.arr_stddev, "size": a.arr_size}.get(k[0])
-        R.equation = op() if op else a.arr_rank(int(k[1]))
+        if dim is not None:
+            R.equation = op(dim)
+        else:
+            R.equation = op() if op else a.arr_rank(int(k[1]))
         line, vals = observe(R)
         return line, vals, None, va
     except pyfrag.Unsupported:
@@ -280,10 +309,19 @@ def spec_agg(agg, d, va):
 
 
 def close(x, y, exact):
+    if isinstance(x, tuple) and x and x[0] == "err":
+        if "ZeroDivisionError" in x[1]:
+            return True      # Python raises where numpy continues with inf / nan (and may come back to a finite value): no value, no claim
+        try:
+            return not math.isfinite(float(y))
+        except Exception:
+            return False
     try:
         x, y = float(x), float(y)
     except Exception:
         return False
+    if not math.isfinite(y):
+        return (math.isnan(x) and math.isnan(y)) or x == y or not exact
     if x == y:
         return True
     return (not exact) and math.isclose(x, y, rel_tol=1e-12, abs_tol=1e-12)
@@ -467,6 +505,352 @@ FIXED_NESTED = [
 ]
 
 
+# ------------------------------------------------------------------ wave 2: operand trees in the Lean model
+# tree:  ("num", lit) | ("el", name, descriptor) | ("neg", t) | ("op", form, a, b)    form: add sub mul div dot
+class Mismatch(Exception):
+    """the numpy operation does not exist for these operands (shapes / index names): the code must raise"""
+
+
+def tree_wire(t):
+    """prefix wire form of the operator tree Python's dispatch builds (driver `expandx`)"""
+    if t[0] == "num":
+        return "N:" + t[1]
+    if t[0] == "el":
+        return wire_operand(t[2], t[1])
+    if t[0] == "neg":                     # Element.__neg__: (-1), Operator.__neg__: (-1.0)
+        return "O nmul " + tree_wire(t[1]) + (" N:-1" if t[1][0] == "el" else " N:-1.0")
+    _, form, a, b = t
+    f = "nmul" if (form == "mul" and a[0] == "num" and b[0] == "el") else form     # Element.__rmul__
+    return f"O {f} {tree_wire(a)} {tree_wire(b)}"
+
+
+def tree_leaves(t, acc):
+    if t[0] == "el":
+        acc[t[1]] = t[2]
+    elif t[0] == "neg":
+        tree_leaves(t[1], acc)
+    elif t[0] == "op":
+        tree_leaves(t[2], acc); tree_leaves(t[3], acc)
+    return acc
+
+
+def tree_depth(t):
+    if t[0] in ("num", "el"):
+        return 0
+    return 1 + (tree_depth(t[1]) if t[0] == "neg" else max(tree_depth(t[2]), tree_depth(t[3])))
+
+
+def tree_show(t):
+    if t[0] == "num":
+        return t[1]
+    if t[0] == "el":
+        return t[1]
+    if t[0] == "neg":
+        return "-" + tree_show(t[1])
+    if t[1] == "dot":
+        return f"{tree_show(t[2])}.dot({tree_show(t[3])})"
+    return "(" + tree_show(t[2]) + {"add": "+", "sub": "-", "mul": "*", "div": "/"}[t[1]] + tree_show(t[3]) + ")"
+
+
+def tree_build(t, els):
+    if t[0] == "num":
+        return int(t[1]) if "." not in t[1] and "e" not in t[1] else float(t[1])
+    if t[0] == "el":
+        return els[t[1]]
+    if t[0] == "neg":
+        return -tree_build(t[1], els)
+    return apply_form(t[1], tree_build(t[2], els), tree_build(t[3], els))
+
+
+def tree_values(t, salt=0):
+    leaves = tree_leaves(t, {})
+    return {nm: values_for(d, (2 * i + 1) if salt == 0 else (salt + 1000 * i if salt >= 110 else salt + i))
+            for i, (nm, d) in enumerate(sorted(leaves.items()))}, leaves
+
+
+def spec_tree(t, vals):
+    """numpy meaning of the tree: (shape, named, {key path: value}); raises Mismatch where the operands do not match.
+    Element-wise: equal shapes AND equal key sets (or a scalar); dot: positional, indexed operands only."""
+    import numpy as np
+    if t[0] == "num":
+        return (), False, {(): np.float64(float(t[1]))}
+    if t[0] == "el":
+        d = t[2]
+        return shape_of(d), bool(is_arr(d) and d[3]), {k: np.float64(v) for k, v in vals[t[1]].items()}
+    if t[0] == "neg":
+        sh, nm, v = spec_tree(t[1], vals)
+        return sh, nm, {k: -x for k, x in v.items()}
+    _, form, a, b = t
+    sa, na, va = spec_tree(a, vals)
+    sb, nb, vb = spec_tree(b, vals)
+    with np.errstate(all="ignore"):
+        if form != "dot":
+            f = {"add": np.add, "sub": np.subtract, "mul": np.multiply, "div": np.divide}[form]
+            if sa == () and sb == ():
+                return (), False, {(): f(va[()], vb[()])}
+            if sa == ():
+                return sb, nb, {k: f(va[()], x) for k, x in vb.items()}
+            if sb == ():
+                return sa, na, {k: f(x, vb[()]) for k, x in va.items()}
+            if sa != sb or na != nb or set(va) != set(vb):
+                raise Mismatch(f"{form}: {sa}/{sorted(va)} vs {sb}/{sorted(vb)}")
+            return sa, na, {k: f(va[k], vb[k]) for k in va}
+        if na or nb:
+            raise Mismatch("dot: named operand")
+        if sa == () and sb == ():
+            raise Mismatch("dot: two values")
+        if sa == ():
+            return sb, False, {k: va[()] * x for k, x in vb.items()}
+        if sb == ():
+            return sa, False, {k: x * vb[()] for k, x in va.items()}
+        if sa[-1] != sb[0]:
+            raise Mismatch(f"dot: {sa} . {sb}")
+        def arr(sh, v):
+            return np.array([v[(str(i),)] for i in range(sh[0])]) if len(sh) == 1 else \
+                np.array([[v[(str(i), str(j))] for j in range(sh[1])] for i in range(sh[0])])
+        r = np.dot(arr(sa, va), arr(sb, vb))
+        if r.ndim == 0:
+            return (), False, {(): r}
+        if r.ndim == 1:
+            return r.shape, False, {(str(i),): r[i] for i in range(r.shape[0])}
+        return r.shape, False, {(str(i), str(j)): r[i][j] for i in range(r.shape[0]) for j in range(r.shape[1])}
+
+
+def run_tree(t, salt=0, kind="converter"):
+    """assign the tree to a fresh converter: (wire line | 'none', values, exception text, leaf value tables)"""
+    vals, leaves = tree_values(t, salt)
+    m = new_model()
+    try:
+        els = {nm: build(m, nm, d, vals[nm], kind) for nm, d in sorted(leaves.items())}
+        R = m.converter("R")
+        R.equation = tree_build(t, els)
+        line, got = observe(R)
+        return line, got, None, vals
+    except pyfrag.Unsupported:
+        raise
+    except Exception as ex:
+        return "none", None, f"{type(ex).__name__}: {ex}", vals
+
+
+class TGen:
+    """typed generator of operand trees: mostly well-shaped (so that deep trees are accepted), with a chance of a
+    wrong leaf shape / name set at every leaf; the left operand of dot is always an element (the DSL's API)"""
+    def __init__(self, rng, bad=8):
+        self.r, self.n, self.bad = rng, 0, bad
+
+    def leaf(self, shape, named=False, el_only=False):
+        r = self.r
+        if self.bad and r.chance(1, self.bad):
+            shape = r.choice([(), (1,), (2,), (3,), (1, 2), (2, 1), (2, 2), (2, 3)])
+            named = r.chance(1, 4) and shape != ()
+        if shape == ():
+            c = r.below(3)
+            if c == 0 and not el_only:              # numbers have no .dot
+                return ("num", r.choice(["2.0", "-1.5", "0.5", "3"]))
+            return ("el", "s" + str(r.below(2)), d_scalar())
+        tag = "n" if named else "e"
+        nm = f"{tag}{'x'.join(map(str, shape))}_{r.below(3)}"          # few names per shape: elements are reused
+        if named:
+            names = ["ab", "ba", "abc", "cab", "xy"]
+            if len(shape) == 1:
+                ks = r.choice([x for x in names if len(x) == shape[0]] or ["abcdef"[:shape[0]]])
+                return ("el", nm + ks, d_nvec(ks))
+            return ("el", nm, d_nmat("xyz"[:shape[0]], "abc"[:shape[1]]))
+        return ("el", nm, d_vec(shape[0]) if len(shape) == 1 else d_mat(*shape))
+
+    def expr(self, shape, depth, named=False):
+        r = self.r
+        if depth == 0:
+            return self.leaf(shape, named)
+        c = r.below(10)
+        if c == 0:
+            x = self.expr(shape, depth - 1, named)
+            return ("neg", x) if x[0] != "num" else x
+        if c <= 3 and not named:                                         # a dot product of this shape
+            k = r.range(1, 3)
+            if shape == ():
+                return ("op", "dot", self.leaf((k,), el_only=True), self.leaf((k,)))
+            if r.chance(1, 4):                                           # array . scalar-valued expression
+                return ("op", "dot", self.leaf(shape, el_only=True), self.expr((), depth - 1))
+            if len(shape) == 1:
+                if r.chance(1, 2):
+                    return ("op", "dot", self.leaf((shape[0], k), el_only=True), self.expr((k,), depth - 1))
+                return ("op", "dot", self.leaf((k,), el_only=True), self.expr((k, shape[0]), depth - 1))
+            return ("op", "dot", self.leaf((shape[0], k), el_only=True), self.expr((k, shape[1]), depth - 1))
+        op = r.choice(["add", "sub", "mul", "div"])
+        d1, d2 = (depth - 1, r.below(depth)) if r.chance(1, 2) else (r.below(depth), depth - 1)
+        if shape != () and r.chance(1, 3):                               # broadcast a scalar-valued side
+            a, b = self.expr(shape, d1, named), self.expr((), d2)
+            if r.chance(1, 2):
+                a, b = b, a
+        else:
+            a, b = self.expr(shape, d1, named), self.expr(shape, d2, named)
+        if a[0] == "num" and b[0] == "num":
+            b = ("el", "s0", d_scalar())
+        return ("op", op, a, b)
+
+
+NEST_LEAVES = [("num", "2.0"), ("el", "s", d_scalar()), ("el", "a", d_vec(2)), ("el", "M", d_mat(2, 2)), ("el", "N", d_mat(1, 2))]
+NEST_LEAVES_T = NEST_LEAVES + [("el", "b", d_vec(3)), ("el", "P", d_mat(2, 1)), ("el", "na", d_nvec("ab")), ("el", "nb", d_nvec("ba"))]
+
+
+def nested_exhaustive(leaves):
+    """all depth-2 trees op1(op2(x, y), z) and op1(z, op2(x, y)) over the leaf set"""
+    out = []
+    forms = ["add", "sub", "mul", "div", "dot"]
+    def ok(f, a, b):
+        if f == "dot":
+            return a[0] == "el"
+        return not (a[0] == "num" and b[0] == "num")
+    for f2 in forms:
+        for x in leaves:
+            for y in leaves:
+                if not ok(f2, x, y):
+                    continue
+                inner = ("op", f2, x, y)
+                for f1 in forms:
+                    for z in leaves:
+                        if f1 != "dot":
+                            out.append(("op", f1, inner, z))
+                        if ok(f1, z, inner):
+                            out.append(("op", f1, z, inner))
+    return out
+
+
+# ------------------------------------------------------------------ wave 2: Stock targets
+STOCK_INIT = 0.5
+
+
+def build_stock(m, d):
+    S = m.stock("S")
+    if not d[1]:
+        return S
+    if d[3]:
+        if not d[2]:
+            S.setup_named_vector({kstr(k): STOCK_INIT for k in d[1]})
+        else:
+            S.setup_named_matrix({kstr(k): {kstr(l): STOCK_INIT for l in d[2]} for k in d[1]})
+    elif not d[2]:
+        S.setup_vector(len(d[1]), [STOCK_INIT] * len(d[1]))
+    else:
+        S.setup_matrix([len(d[1]), len(d[2])], [[STOCK_INIT] * len(d[2]) for _ in d[1]])
+    return S
+
+
+def substocks(S, d):
+    """[(name, key path, element)]: the stock itself, its rows, its entries"""
+    out = [("S", (), S)]
+    for k in d[1]:
+        e = S[kstr(k)]
+        out.append((e.name, (kstr(k),), e))
+        for l in d[2]:
+            out.append((e[kstr(l)].name, (kstr(k), kstr(l)), e[kstr(l)]))
+    return out
+
+
+def observe_stock_fresh(S):
+    vals = {}
+    if not S.arrayed:
+        vals[()] = safe_eval(S, 2.0)
+        return "scalar | " + fs_tokens(S._function_string), vals
+    keys = list(S._elements.equations)
+    if S[keys[0]]._elements.vector_size() == 0:
+        parts = []
+        for k in keys:
+            parts += [k, fs_tokens(S[k]._function_string)]
+            vals[(k,)] = safe_eval(S[k], 2.0)
+        return f"vector {1 if S.named_arrayed else 0} | " + " | ".join(parts), vals
+    parts, n = [], None
+    for k in keys:
+        inner = list(S[k]._elements.equations)
+        n = len(inner)
+        for l in inner:
+            parts.append(fs_tokens(S[k][l]._function_string))
+            vals[(k, l)] = safe_eval(S[k][l], 2.0)
+    return f"matrix {len(keys)} {n} | " + " | ".join(parts), vals
+
+
+def run_stock(t, sd, salt=0):
+    """S.equation = tree on the stock described by sd (scalar descriptor = fresh, non-arrayed stock).
+    returns (canonical line, {key path: value at t=2}, {key path: initial value}, exception text, leaf tables)"""
+    vals, leaves = tree_values(t, salt)
+    m = new_model()
+    try:
+        els = {nm: build(m, nm, d, vals[nm]) for nm, d in sorted(leaves.items())}
+        S = build_stock(m, sd)
+        subs = substocks(S, sd)
+        before = {n: e._function_string for n, _, e in subs}
+        S.equation = els[t[1]] if t[0] == "el" else tree_build(t, els)
+        if not sd[1]:
+            line, got = observe_stock_fresh(S)
+            return line, got, {k: 0.0 for k in got}, None, vals
+        depth = 2 if sd[2] else 1
+        ch = [(n, kp, e) for n, kp, e in subs if e._function_string != before[n] and "model.dt*(" in e._function_string]
+        line = "assign" + "".join(f" | {n} | {fs_tokens(e._function_string)}" for n, kp, e in sorted(ch, key=lambda x: x[0]))
+        return (line, {kp: safe_eval(e, 2.0) for n, kp, e in ch},
+                {kp: (STOCK_INIT if len(kp) == depth else 0.0) for n, kp, e in ch}, None, vals)
+    except pyfrag.Unsupported:
+        raise
+    except Exception as ex:
+        return "none", None, None, f"{type(ex).__name__}: {ex}", vals
+
+
+def canon_assign(line):
+    if not line.startswith("assign"):
+        return line
+    parts = line.split(" | ")[1:]
+    return "assign" + "".join(f" | {n} | {x}" for n, x in sorted(zip(parts[0::2], parts[1::2])))
+
+
+def stock_request(t, sd):
+    if t[0] == "el":
+        return f"stockel {STOCK_INIT} {wire_operand(sd, 'S')} {tree_wire(t)}"
+    if not sd[1]:
+        return f"stockfresh S {tree_wire(t)}"
+    return f"stockx {STOCK_INIT} {wire_operand(sd, 'S')} {tree_wire(t)}"
+
+
+def stock_targets(shape, named, keys):
+    """stock shapes tried for an equation of the given result shape: fresh, the same shape, one row more, one less,
+    a matrix for a vector / a vector for a matrix, and the named variant"""
+    out = [d_scalar()]
+    if shape == ():
+        return out + [d_vec(2), d_mat(2, 2)]
+    if len(shape) == 1:
+        n = shape[0]
+        out += [d_vec(n), d_vec(n + 1), d_mat(n, 2)]
+        if n > 1:
+            out.append(d_vec(n - 1))
+        if named:
+            ks = [k[0] for k in keys]
+            out += [d_nvec(ks), d_nvec(ks[::-1]), d_nvec(ks[:-1] + ["q"])]
+        else:
+            out.append(d_nvec("abcdef"[:n]))
+        return out
+    m_, n_ = shape
+    out += [d_mat(m_, n_), d_mat(m_ + 1, n_), d_mat(m_, n_ + 1), d_vec(m_)]
+    if n_ > 1:
+        out.append(d_mat(m_, n_ - 1))
+    return out
+
+
+# ------------------------------------------------------------------ wave 2: ragged named matrices (oracle only)
+def run_ragged(agg, rows):
+    """aggregate of a named matrix whose rows have different key sets: (accepted?, value or ('err', …))"""
+    m = new_model()
+    try:
+        a = m.converter("A")
+        a.setup_named_matrix(rows)
+        R = m.converter("R")
+        k = agg.split(":")
+        op = {"sum": a.arr_sum, "prod": a.arr_prod, "mean": a.arr_mean, "median": a.arr_median,
+              "std": a.arr_stddev, "size": a.arr_size}.get(k[0])
+        R.equation = op() if op else a.arr_rank(int(k[1]))
+        return True, safe_eval(R)
+    except Exception as ex:
+        return False, f"{type(ex).__name__}: {ex}"
+
+
 # ------------------------------------------------------------------ probes and Gen file
 def probe():
     facts = {}
@@ -485,6 +869,13 @@ def gen_lean(facts):
             f"probed mechanism facts: {facts} -/\n"
             "namespace Bptk.C10.Gen\nopen Bptk.C10 Bptk.Py\n"
             "theorem holds : C10_full := C10_full_holds\n#print axioms holds\n"
+            "theorem holds_wave2 : C10_wave2 := C10_wave2_holds\n#print axioms holds_wave2\n"
+            "/-- wave 2, kernel-computed: a depth-3 operand of dot is re-indexed at every level (the probed mechanism),\n"
+            "and the nested model on a flat tree is the wave-1 model. -/\n"
+            "example : (expandE tNow (.op .dot (.el (.mat \"M\" 1 2)) (.op (.ew .add) (.op (.ew .add) (.el (.vec \"a\" 2))\n"
+            "    (.el (.vec \"b\" 2))) (.el (.vec \"c\" 2))))).map (fun r => r.exprs.map (fun p => (pr p).length)) = some [89] ∧\n"
+            "    (expandE tNow (.op .dot (.el (.mat \"A\" 2 3)) (.el (.vec \"v\" 3)))).isSome\n"
+            "      = (expand .dot (.el (.mat \"A\" 2 3)) (.el (.vec \"v\" 3))).isSome := by decide +kernel\n"
             "/-- non-vacuity on a concrete instance, computed by the kernel: a 2x3 · 3 dot product is accepted,\n"
             "its entries are well-levelled; a 2x3 + 3x2 addition is rejected. -/\n"
             "example : (match expand .dot (.el (.mat \"A\" 2 3)) (.el (.vec \"v\" 3)) with\n"
@@ -492,6 +883,9 @@ def gen_lean(facts):
             "    | _ => false) = true ∧\n"
             "    (expand (.ew .add) (.el (.mat \"A\" 2 3)) (.el (.mat \"B\" 3 2))).isNone = true := by decide +kernel\n"
             "end Bptk.C10.Gen\n")
+
+
+COMBOS = [(zs, k) for zs in (100, 101, 102, 110, 111, 112, 113) for k in ("constant", "converter")] + [(0, "constant")]
 
 
 # ------------------------------------------------------------------ the check
@@ -525,6 +919,7 @@ def run(chk):
     # ---- real side + requests
     req, real, meta = [], [], []
     violations = {}          # key -> (size, text, replay)
+    codegen_only = set()     # value-dependent code generation seen without a wrong value (reported without failing input)
     unsupported = 0
     dist = {}
 
@@ -554,23 +949,43 @@ def run(chk):
             if d is not None:
                 note_violation(f"wrong-value:{'nmul' if req[-1].startswith('expand nmul') else form}", size,
                                f"{txt}: element {d[0]} evaluates to {d[1]}, numpy gives {d[2]}", dict(rep, index=d[0], observed=d[1], expected=d[2]))
-            # sparse operands: the same case with zero entries (all-zero, zero row, alternating) — values only
-            if form in ("dot", "mul", "add", "sub") and nontriv:
-                for zs in (100, 101, 102):
-                    try:
-                        zline, zvals, zexc, zva, zvb = run_real(form, da, db, zs)
-                    except pyfrag.Unsupported:
-                        continue
-                    dist["zero_tables"] = dist.get("zero_tables", 0) + 1
+        # value tables and element kinds (item 4): the same case with zero / negative-zero / equal entries, held by
+        # constants and by converters — the generated code must not depend on the values (token identity with the base
+        # run, hence with the model), acceptance must not either, and the values must still be numpy's
+        if nontriv or (da[0] == "el" and db is not None and db[0] == "el"):
+            combos = COMBOS if not chk.quick else [COMBOS[(3 * len(req) + j) % len(COMBOS)] for j in range(3)]
+            for zs, zkind in combos:
+                try:
+                    zline, zvals, zexc, zva, zvb = run_real(form, da, db, zs, zkind)
+                except pyfrag.Unsupported:
+                    unsupported += 1
+                    continue
+                dist["value_tables"] = dist.get("value_tables", 0) + 1
+                if zline != line:
+                    key = "acceptance-depends-on-values" if (zline == "none") != (line == "none") else "value-dependent-codegen"
+                    import numpy as np
+                    with np.errstate(all="ignore"):
+                        zexp = spec(form, da, db, zva, zvb)
+                    zd = compare_values(zvals, zexp, exact=False) if (zexp is not None and zline != "none") else None
+                    note_violation(f"{key}:{form}", size,
+                                   f"{txt} with value table {zs} held by {zkind}s: the generated equations differ from those for other values "
+                                   f"({zline[:70]}… vs {line[:70]}…)" + (f"; element {zd[0]} evaluates to {zd[1]!r}, numpy gives {zd[2]}" if zd else ""),
+                                   dict(rep, salt=zs, elem_kind=zkind), )
+                    if not zd:
+                        codegen_only.add(f"{key}:{form}")
+                    continue
+                if zline == "none":
+                    continue
+                import numpy as np
+                with np.errstate(all="ignore"):
                     zexp = spec(form, da, db, zva, zvb)
-                    if zexp is None or zline == "none":
-                        if zline != line and (zline == "none") != (line == "none"):
-                            note_violation(f"acceptance-depends-on-values:{form}", size, f"{txt}: accepted with non-zero entries, {'rejected' if zline == 'none' else 'accepted'} with zero entries", dict(rep, salt=zs))
-                        continue
-                    zd = compare_values(zvals, zexp, exact=True)
-                    if zd is not None:
-                        note_violation(f"wrong-value:{form}", size, f"{txt} with zero entries (value table {zs}): element {zd[0]} evaluates to {zd[1]!r}, numpy gives {zd[2]}",
-                                       dict(rep, salt=zs, index=zd[0], observed=repr(zd[1]), expected=zd[2]))
+                if zexp is None:
+                    continue
+                zd = compare_values(zvals, zexp, exact=(form != "div"))
+                if zd is not None:
+                    note_violation(f"wrong-value:{'nmul' if req[-1].startswith('expand nmul') else form}", size,
+                                   f"{txt} with value table {zs} held by {zkind}s: element {zd[0]} evaluates to {zd[1]!r}, numpy gives {zd[2]}",
+                                   dict(rep, salt=zs, elem_kind=zkind, index=zd[0], observed=repr(zd[1]), expected=zd[2]))
     n_bin = len(req)
     for g, d in agg_cases(K):
         try:
@@ -590,6 +1005,192 @@ def run(chk):
             if not close(vals[()], exp, exact=g.split(":")[0] in ("sum", "prod", "size", "rank")):
                 note_violation(f"wrong-value:{g.split(':')[0]}", size, f"{g}({describe(d)}) evaluates to {vals[()]}, numpy gives {exp}",
                                dict(rep, observed=vals[()], expected=exp))
+    # ---- aggregates under value tables / element kinds (item 4) and with an explicit dimension (item 5)
+    import numpy as np
+    for ci, (g, d) in enumerate(agg_cases(K)):
+        if not is_arr(d):
+            continue
+        g0 = g.split(":")[0]
+        size = len(d[1]) * max(1, len(d[2]))
+        base = run_real_agg(g, d)[0]
+        combos = COMBOS if not chk.quick else [COMBOS[(2 * ci + j) % len(COMBOS)] for j in range(2)]
+        for zs, zkind in combos:
+            try:
+                zline, zvals, zexc, zva = run_real_agg(g, d, zs, zkind)
+            except pyfrag.Unsupported:
+                unsupported += 1
+                continue
+            dist["agg_value_tables"] = dist.get("agg_value_tables", 0) + 1
+            rep = {"kind": "agg", "agg": g, "a": d, "salt": zs, "elem_kind": zkind}
+            if zline != base:
+                key = "acceptance-depends-on-values" if (zline == "none") != (base == "none") else "value-dependent-codegen"
+                note_violation(f"{key}:{g0}", size, f"{g}({describe(d)}) with value table {zs} held by {zkind}s: the generated equation differs "
+                               f"from the one for other values ({zline[:70]}… vs {base[:70]}…)", rep)
+                codegen_only.add(f"{key}:{g0}")
+                continue
+            if zline == "none":
+                continue
+            with np.errstate(all="ignore"):
+                zexp = spec_agg(g, d, zva)
+            if zexp is not None and not close(zvals[()], zexp, exact=g0 in ("sum", "prod", "size", "rank")):
+                note_violation(f"wrong-value:{g0}", size, f"{g}({describe(d)}) with value table {zs} held by {zkind}s evaluates to {zvals[()]!r}, numpy gives {zexp}",
+                               dict(rep, observed=repr(zvals[()]), expected=zexp))
+        if g in ("sum", "prod"):
+            for dim in (0, 1, 2, 3):
+                try:
+                    line, vals, exc, va = run_real_agg(g, d, dim=dim)
+                except pyfrag.Unsupported:
+                    line, vals = "none", None          # the empty text cannot be lexed either: refused
+                req.append(f"aggdim {g} {dim} {wire_operand(d, 'A')}"); real.append(line); meta.append((g, d, None))
+                chk.case(("aggdim", g, dim, d), nontrivial=True)
+                dist["agg_dimension"] = dist.get("agg_dimension", 0) + 1
+                if line != "none":
+                    exp = spec_agg(g, d, va)
+                    if not close(vals[()], exp, exact=True):
+                        note_violation(f"wrong-value:{g}-dimension", size, f"arr_{g}({dim}) of {describe(d)} evaluates to {vals[()]}, numpy's total gives {exp}",
+                                       {"kind": "agg", "agg": g, "a": d, "salt": 0, "dim": dim, "observed": vals[()], "expected": exp})
+    # ---- ragged named matrices (oracle only: the Lean element has uniform rows)
+    ragged = {}
+    for rows in ({"x": {"a": 1.0, "b": 2.0}, "y": {"a": 3.0}}, {"x": {"a": 2.0}, "y": {"a": 3.0, "b": 4.0, "c": -1.0}}):
+        flat = [v for r_ in rows.values() for v in r_.values()]
+        for g in ("sum", "prod", "size", "mean", "median", "std", "rank:1"):
+            acc, val = run_ragged(g, rows)
+            ragged[f"{g}{[len(r_) for r_ in rows.values()]}"] = ("accepted: " + repr(val)) if acc else "rejected"
+            chk.case(("ragged", g, tuple(len(r_) for r_ in rows.values())), nontrivial=True)
+            want = {"sum": float(np.sum(flat)), "prod": float(np.prod(flat)), "size": float(len(rows))}.get(g)
+            if acc and want is not None and not close(val, want, exact=True):
+                note_violation(f"wrong-value:{g}-ragged", len(flat), f"arr_{g} of the named matrix {rows} evaluates to {val!r}, the entries give {want}",
+                               {"kind": "ragged", "agg": g, "rows": rows, "observed": repr(val), "expected": want})
+            if acc and want is None and not (isinstance(val, tuple) and val[0] == "err"):
+                ref = {"mean": np.mean, "median": np.median, "std": np.std}.get(g)
+                if ref is not None and not close(val, float(ref(flat)), exact=False):
+                    note_violation(f"wrong-value:{g}-ragged", len(flat), f"arr_{g} of the named matrix {rows} evaluates to {val!r}, numpy on the entries gives {float(ref(flat))}",
+                                   {"kind": "ragged", "agg": g, "rows": rows, "observed": repr(val), "expected": float(ref(flat))})
+    chk.cov["ragged_named_matrices"] = ragged
+    # ---- nested operand trees in the model (item 2): exhaustive depth 2 over a leaf set + typed random depth 2..4
+    trees = nested_exhaustive(NEST_LEAVES if chk.quick else NEST_LEAVES_T)
+    n_exh = len(trees)
+    rngt = chk.rng.fork("c10-trees")
+    tg = TGen(rngt)
+    want_n = 2500 if chk.quick else 25000
+    while len(trees) < n_exh + want_n:
+        shape = rngt.choice([(), (1,), (2,), (2,), (3,), (1, 2), (2, 1), (2, 2), (2, 2), (2, 3), (3, 2)])
+        t = tg.expr(shape, rngt.range(2, 3 if chk.quick else 4), named=(len(shape) >= 1 and rngt.chance(1, 6)))
+        if t[0] == "op" or (t[0] == "neg" and t[1][0] != "el"):
+            trees.append(t)
+    ndist = {"exhaustive_depth2": n_exh, "random_typed": len(trees) - n_exh, "accepted": 0, "accepted_depth": {}, "must_reject": 0, "with_dot": 0}
+    stock_pool = []
+    for ti, t in enumerate(trees):
+        try:
+            line, got, exc, vals = run_tree(t)
+        except pyfrag.Unsupported:
+            unsupported += 1
+            continue
+        req.append("expandx " + tree_wire(t)); real.append(line); meta.append(("tree", None, None))
+        txt = tree_show(t)
+        acc = line != "none"
+        dep = tree_depth(t)
+        chk.case(("tree", tree_wire(t)), nontrivial=True, sample=(txt + " -> " + line[:60]) if acc and dep >= 3 and ti % 97 == 0 else None)
+        rep = {"kind": "tree", "tree": t, "salt": 0}
+        try:
+            shape, named, exp = spec_tree(t, vals)
+        except Mismatch as mm:
+            shape, named, exp = None, None, None
+            ndist["must_reject"] += 1
+            if acc:
+                note_violation("mismatch-accepted:nested", 100 + len(txt), f"{txt}: operands do not match ({mm}) but the equation is accepted ({line[:60]}…)", rep)
+        if acc:
+            ndist["accepted"] += 1
+            ndist["accepted_depth"][dep] = ndist["accepted_depth"].get(dep, 0) + 1
+            ndist["with_dot"] += "dot" in txt
+            if exp is not None:
+                dd = compare_values(got, {k: float(v) for k, v in exp.items()}, exact=False)
+                if dd is not None:
+                    note_violation("wrong-value:nested-dot-operand" if "dot" in txt else "wrong-value:nested", 100 + len(txt),
+                                   f"{txt}: element {dd[0]} evaluates to {dd[1]!r}, numpy gives {dd[2]}",
+                                   dict(rep, index=dd[0], observed=repr(dd[1]), expected=dd[2]))
+            if ti % (4 if chk.quick else 2) == 0:                     # value tables / kinds on trees
+                for zs, zkind in ((112, "constant"), (100, "constant"), (111, "converter")):
+                    try:
+                        zline, zgot, zexc, zvals = run_tree(t, zs, zkind)
+                    except pyfrag.Unsupported:
+                        continue
+                    if zline != line:
+                        note_violation("value-dependent-codegen:nested", 100 + len(txt), f"{txt} with value table {zs} held by {zkind}s: the generated equations differ "
+                                       f"from those for other values ({zline[:70]}… vs {line[:70]}…)", dict(rep, salt=zs, elem_kind=zkind))
+                        codegen_only.add("value-dependent-codegen:nested")
+                        continue
+                    try:
+                        _, _, zexp = spec_tree(t, zvals)
+                    except Mismatch:
+                        continue
+                    dd = compare_values(zgot, {k: float(v) for k, v in zexp.items()}, exact=False)
+                    if dd is not None:
+                        note_violation("wrong-value:nested-dot-operand" if "dot" in txt else "wrong-value:nested", 100 + len(txt),
+                                       f"{txt} with value table {zs} held by {zkind}s: element {dd[0]} evaluates to {dd[1]!r}, numpy gives {dd[2]}",
+                                       dict(rep, salt=zs, elem_kind=zkind, index=dd[0], observed=repr(dd[1]), expected=dd[2]))
+        if ti % (3 if chk.quick else 2) == 0 or (acc and dep >= 2 and ti % 2 == 0):
+            stock_pool.append((t, shape, named, exp))
+    chk.cov["nested_trees_in_model"] = ndist
+    # ---- Stock targets (item 3): flat pairs, nested trees and arrayed-element equations on fresh / arrayed stocks
+    flat_ops = [("num", "2.0"), ("el", "s", d_scalar()), ("el", "a", d_vec(2)), ("el", "b", d_vec(2)), ("el", "c", d_vec(3)),
+                ("el", "M", d_mat(2, 2)), ("el", "N", d_mat(1, 2)), ("el", "P", d_mat(2, 1)), ("el", "na", d_nvec("ab")), ("el", "nb", d_nvec("ba"))]
+    for x in flat_ops:
+        for y in flat_ops:
+            for f in ("add", "mul", "sub", "div", "dot"):
+                if (x[0] == "num" and (y[0] == "num" or f == "dot")):
+                    continue
+                t = ("op", f, x, y)
+                try:
+                    shape, named, exp = spec_tree(t, tree_values(t)[0])
+                except Mismatch:
+                    shape, named, exp = None, None, None
+                stock_pool.append((t, shape, named, exp))
+        if x[0] == "el" and is_arr(x[2]):
+            stock_pool.append((x, shape_of(x[2]), x[2][3], None))
+    for extra in (("el", "Q", d_mat(2, 3)), ("el", "NM", d_nmat("xy", "ab")), ("el", "NM2", d_nmat("yx", "ba"))):
+        stock_pool.append((extra, shape_of(extra[2]), extra[2][3], None))
+    sdist = {"cases": 0, "accepted": 0, "fresh": 0, "arrayed_operator": 0, "arrayed_element": 0, "stock_shape_differs_accepted": 0}
+    for t, shape, named, exp in stock_pool:
+        if t[0] == "el":
+            d = t[2]
+            targets = [d_vec(len(d[1])), d_vec(len(d[1]) + 1), d_mat(len(d[1]), 2), d_mat(len(d[1]), max(1, len(d[2]))),
+                       d_nvec([kstr(k) for k in d[1]]), d_nvec([kstr(k) for k in d[1]][::-1]),
+                       d_nmat([kstr(k) for k in d[1]], [kstr(l) for l in d[2]] or ["a"])]
+        elif shape is None:
+            targets = [d_scalar(), d_vec(2), d_mat(2, 2)]
+        else:
+            targets = stock_targets(shape, named, sorted(exp) if exp else [])
+        for sd in targets:
+            try:
+                line, got, inits, exc, vals = run_stock(t, sd)
+            except pyfrag.Unsupported:
+                unsupported += 1
+                continue
+            req.append(stock_request(t, sd)); real.append(line); meta.append(("stock", None, None))
+            sdist["cases"] += 1
+            sdist["accepted"] += line != "none"
+            sdist["fresh" if not sd[1] else ("arrayed_element" if t[0] == "el" else "arrayed_operator")] += 1
+            txt = f"stock {describe(sd)} := {tree_show(t)}"
+            chk.case(("stock", sd, tree_wire(t)), nontrivial=True, sample=(txt + " -> " + line[:60]) if line != "none" and sdist["accepted"] % 211 == 0 else None)
+            rep = {"kind": "stock", "tree": t, "stock": sd, "salt": 0}
+            if line == "none":
+                continue
+            if t[0] == "el":
+                ev = {k: float(v) for k, v in vals[t[1]].items()}
+                dd = next(((list(k), got[k], inits[k] + 2.0 * ev[k]) for k in sorted(got) if k in ev and not close(got[k], inits[k] + 2.0 * ev[k], exact=False)), None)
+            elif exp is None:
+                note_violation("mismatch-accepted:stock", 200 + len(txt), f"{txt}: the operands of the equation do not match but it is accepted ({line[:60]}…)", rep)
+                continue
+            else:
+                if shape_of(sd) != shape and sd[1]:
+                    sdist["stock_shape_differs_accepted"] += 1
+                ev = {k: float(v) for k, v in exp.items()}
+                dd = next(((list(k), got[k], inits[k] + 2.0 * ev[k]) for k in sorted(got) if k in ev and not close(got[k], inits[k] + 2.0 * ev[k], exact=False)), None)
+            if dd is not None:
+                note_violation("wrong-value:stock", 200 + len(txt), f"{txt}: sub-stock {dd[0]} is {dd[1]!r} at t=2, initial value + 2·(numpy entry) is {dd[2]}",
+                               dict(rep, index=dd[0], observed=repr(dd[1]), expected=dd[2]))
+    chk.cov["stock_targets"] = sdist
     chk.cov["op_distribution"] = dist
     chk.cov["unsupported_strings"] = unsupported
     # ---- nested expressions against numpy (reference check only)
@@ -628,7 +1229,7 @@ def run(chk):
                            {"kind": "nested", "tree": t, "leaves": g.leaves, "index": d[0], "observed": d[1], "expected": d[2]})
     chk.cov["nested_expressions"] = {"run": n_nested, "accepted": n_nested_acc}
     # ---- model side
-    model = drive("C10", req)
+    model = [canon_assign(x) for x in drive("C10", req)]
     chk.cov["traces_validated_against_impl"] = len(req)
     diffs = [i for i, (a, b) in enumerate(zip(model, real)) if a != b]
     if len(model) != len(real):
@@ -636,7 +1237,10 @@ def run(chk):
     chk.cov["correspondence_diffs"] = len(diffs)
     # ---- decide
     for key, (size, text, rep) in sorted(violations.items()):
-        chk.add_finding(key, text, rep)
+        if key in codegen_only:
+            chk.add_finding(key, text, dict(rep, correspondence="generated code depends on element values / kinds; no wrong value found"), found_input=False)
+        else:
+            chk.add_finding(key, text, rep)
     for name, okp in facts.items():
         if not okp and not violations:
             chk.add_finding("probe:" + name, f"mechanism probe {name} failed but no wrong value was found", {"probe": name}, found_input=False)
